@@ -103,8 +103,20 @@ type GhostFn struct {
 	Text     string
 }
 
+// KeyFn: `loop N keyfn NAME = expr` - for a map-range loop that is not nested in
+// another loop: NAME(k), for the key k of an iteration, is the value of expr at
+// the start of that iteration (every key is visited at most once, so the points
+// never clash). It is the Skolem function of "there is a position at which k
+// was put".
+type KeyFn struct {
+	Name string
+	Val  Expr
+	Text string
+}
+
 type LoopContract struct {
 	GhostFns    []*GhostFn
+	KeyFns      []*KeyFn
 	Invariants  []*Clause
 	Decreases   *Clause
 	HasModifies bool
@@ -136,6 +148,7 @@ type FuncContract struct {
 	Pure         bool // no effects at all (extern stubs)
 	NoAlloc      bool
 	Canon        []string          // properties owning the canonicalisation-stability obligations of the type tests in this function
+	MayPanic     bool              // the call may panic (it runs code of the program under the interpreter): a call site must be under a deferred recover
 	Deferred     bool              // when started with `go`, the function takes effect only after the spawning activation has returned
 	Recovered    bool              // explicit panics in this function are caught by a deferred recover up the (trusted) call chain
 	Opaque       bool              // do not inline even if loop free: treat by contract only
@@ -265,7 +278,7 @@ var tagRe = regexp.MustCompile(`^\[([^\]]*)\]\s*`)
 var labelRe = regexp.MustCompile(`^([A-Za-z_][A-Za-z0-9_\-]*):\s+`)
 var headRe = regexp.MustCompile(`^(func|iface|sig|extern|spec|globalinv|atomicfield|guardedby|jsonform)\s+(.*)$`)
 var clauseKw = map[string]bool{"returns": true, "safety": true, "requires": true, "ensures": true, "modifies": true, "writes": true,
-	"loop": true, "let": true, "across": true, "ghostset": true, "ghostadd": true, "onwrite": true, "callpre": true, "argfrom": true, "inline": true, "trusted": true, "trustedframe": true, "pure": true, "calls": true, "logical": true, "opaque": true, "recovered": true, "deferred": true, "canon": true, "logged": true, "noalloc": true}
+	"loop": true, "let": true, "across": true, "ghostset": true, "ghostadd": true, "onwrite": true, "callpre": true, "argfrom": true, "inline": true, "trusted": true, "trustedframe": true, "pure": true, "calls": true, "logical": true, "opaque": true, "recovered": true, "maypanic": true, "deferred": true, "canon": true, "logged": true, "noalloc": true}
 
 func parseTags(s string) (props []string, profile string, rest string) {
 	m := tagRe.FindStringSubmatch(s)
@@ -554,6 +567,8 @@ func (cs *ContractSet) addClause(fc *FuncContract, t, file string, line int) err
 		fc.Opaque = true
 	case "recovered":
 		fc.Recovered = true
+	case "maypanic":
+		fc.MayPanic = true
 	case "deferred":
 		fc.Deferred = true
 	case "canon":
@@ -708,6 +723,16 @@ func (cs *ContractSet) addClause(fc *FuncContract, t, file string, line int) err
 				return err
 			}
 			lc.Decreases = c
+		case "keyfn":
+			k := strings.Index(srest, "=")
+			if k < 0 {
+				return fmt.Errorf("%s:%d: keyfn NAME = expr", file, line)
+			}
+			val, err := ParseExpr(srest[k+1:])
+			if err != nil {
+				return fmt.Errorf("%s:%d: %v", file, line, err)
+			}
+			lc.KeyFns = append(lc.KeyFns, &KeyFn{Name: strings.TrimSpace(srest[:k]), Val: val, Text: srest})
 		case "ghostfn":
 			// ghostfn NAME(idx) = value
 			i, j, k := strings.Index(srest, "("), strings.Index(srest, ")"), strings.Index(srest, "=")
